@@ -388,7 +388,7 @@ def reactServer (s : St) (m : Stun) : St × List Out :=
     | .error => ({ s with stunTx := rest }, .accepted :: done)
     | .response =>
       match m.mapped with
-      -- (before repo commit 314ddf9 the next two cases returned early WITHOUT forgetting the deleted transaction)
+      -- (before repo commit d3fbd07 the next two cases returned early WITHOUT forgetting the deleted transaction)
       | none => ({ s with stunTx := rest }, .accepted :: .warnNoReflexive :: done)
       | some a =>
         if s.localSrflx.contains a then ({ s with stunTx := rest }, .accepted :: done)
